@@ -234,12 +234,12 @@ func (queue *Queue) Pop() *amqp.Message {
 
 // PopQos returns message from queue head with QOS check
 func (queue *Queue) PopQos(qosList []*qos.AmqpQos) *amqp.Message {
+	// held until the pop is done: Delete and Stop must not deactivate the queue or close its channels in between
 	queue.actLock.RLock()
+	defer queue.actLock.RUnlock()
 	if !queue.active {
-		queue.actLock.RUnlock()
 		return nil
 	}
-	queue.actLock.RUnlock()
 
 	select {
 	case queue.maybeLoadFromStorageCh <- struct{}{}:
@@ -409,11 +409,10 @@ func (queue *Queue) LoadFromMsgStorage() {
 // AckMsg accept ack event for message
 func (queue *Queue) AckMsg(message *amqp.Message) {
 	queue.actLock.RLock()
+	defer queue.actLock.RUnlock()
 	if !queue.active {
-		queue.actLock.RUnlock()
 		return
 	}
-	queue.actLock.RUnlock()
 
 	if queue.durable && message.IsPersistent() {
 		// TODO handle error
@@ -432,12 +431,13 @@ func (queue *Queue) AckMsg(message *amqp.Message) {
 
 // Requeue add message into queue head
 func (queue *Queue) Requeue(message *amqp.Message) {
+	// held until the message is back and counted: a concurrent Delete would otherwise read the
+	// length before and the counters would keep the message for ever
 	queue.actLock.RLock()
+	defer queue.actLock.RUnlock()
 	if !queue.active {
-		queue.actLock.RUnlock()
 		return
 	}
-	queue.actLock.RUnlock()
 
 	message.DeliveryCount++
 	queue.SafeQueue.PushHead(message)
